@@ -49,11 +49,16 @@ def include_panic_guards(ck, facts, tier):
     parser's part handling (R06.3) and the FX update's refusal and slot selection (R10.4, R10.6). Removing such a guard leaves the panic edge where it
     was — the site inventory cannot see it — so C20 includes exactly those rules. R11.4 (a curve's nodes are sorted by every constructor and by the loader)
     is the shape invariant of CurveDF that "loading from JSON text returns a value satisfying its type's shape invariants" quantifies over."""
-    from rules import c15, c08, c03, c09, c11, c05, c06, c10
-    for mod, only in ((c15, {"R15.2"}), (c08, {"R08.2", "R08.3", "R08.5"}), (c03, {"R03.1", "R03.3", "R03.5"}), (c09, {"R09.1", "R09.2"}), (c11, {"R11.4"}),
+    from rules import c15, c08, c03, c09, c11, c05, c06, c10, c13
+    # R13.3: the solver's dimension asserts are reviewed on the basis of the shapes it builds (A^T A is n x n, A^T b is n): the wrong product aborts csolve
+    for mod, only in ((c15, {"R15.2"}), (c13, {"R13.3"}), (c08, {"R08.2", "R08.3", "R08.5"}), (c03, {"R03.1", "R03.3", "R03.5"}), (c09, {"R09.1", "R09.2"}), (c11, {"R11.4"}),
                       (c05, {"R05.4", "R05.5"}), (c06, {"R06.3"}), (c10, {"R10.4", "R10.6"})):
         with ck.restrict(only):
             _quiet(ck, lambda: mod.run(ck, facts, tier))
+    # "loading from JSON text ... never aborts": a stored form is turned into a value by the derived impls or by a reviewed conversion only — a container
+    # attribute that routes loading through an unreviewed (possibly unwrapping) constructor is reported by the storage rules (C16 S16.2/S16.3/S16.7, all types)
+    from rules import c16
+    _quiet(ck, lambda: c16.run(ck, facts, tier, only_types=r"."))
 
 
 def include_number_surface(ck, facts, tier):
